@@ -51,6 +51,8 @@ type Model struct {
 	storeReach map[*ssa.Function]bool
 	ownershipExtras map[*ssa.Function][]string
 	fieldTaint map[string]bool
+	ctorCode map[*ssa.Function]bool
+	validatorAccept map[string]bool
 	la      *LockAnalysis
 
 	problems []string
@@ -96,7 +98,7 @@ func isNamed(t types.Type, pkgPath, name string) bool {
 }
 
 func buildModel(p *Program) *Model {
-	m := &Model{P: p, Sym: newSymbolizer(p), StateConsts: map[string]string{}, guards: map[*ssa.BasicBlock][]Lit{}, facts: map[factKey]factResult{}, demoteMemo: map[string]bool{}, storeReach: map[*ssa.Function]bool{}, ownershipExtras: map[*ssa.Function][]string{}}
+	m := &Model{P: p, Sym: newSymbolizer(p), StateConsts: map[string]string{}, guards: map[*ssa.BasicBlock][]Lit{}, facts: map[factKey]factResult{}, demoteMemo: map[string]bool{}, storeReach: map[*ssa.Function]bool{}, ownershipExtras: map[*ssa.Function][]string{}, ctorCode: map[*ssa.Function]bool{}}
 	m.Funcs = p.libFuncs()
 	lp := p.Leader
 
@@ -476,7 +478,7 @@ func topFunc(f *ssa.Function) *ssa.Function {
 
 func (m *Model) buildUnits() {
 	for _, f := range m.Funcs {
-		var setsTrue, setsFalse, callsCancel bool
+		var setsTrue, setsFalse, callsCancel, storesStopped bool
 		for _, b := range f.Blocks {
 			for _, in := range b.Instrs {
 				switch in := in.(type) {
@@ -497,6 +499,11 @@ func (m *Model) buildUnits() {
 							setsTrue, setsFalse = true, true
 						}
 					}
+					if fld, v, ok := m.atomicStore(in); ok && fld == m.State {
+						if str, isC := constStr(v); isC && str == m.StateConsts["StateStopped"] {
+							storesStopped = true
+						}
+					}
 					if !in.Call.IsInvoke() && in.Call.StaticCallee() == nil {
 						if s := m.Sym.Of(in.Call.Value); s.Op == "path" && s.Name == m.ImplName+"."+m.Cancel {
 							callsCancel = true
@@ -508,9 +515,10 @@ func (m *Model) buildUnits() {
 		if setsTrue {
 			m.ClaimSet = append(m.ClaimSet, f)
 		}
-		if setsFalse && f != m.Ctor {
+		if setsFalse && !m.isCtorCode(f) {
 			m.ClaimClear = append(m.ClaimClear, f)
-			if callsCancel {
+			// a stop core marks the election STOPPED (the cancel call may sit in the exported method)
+			if storesStopped || callsCancel {
 				m.StopCores = append(m.StopCores, f)
 			} else {
 				m.DemoteUnits = append(m.DemoteUnits, f)
@@ -607,4 +615,40 @@ func (m *Model) describe() string {
 		fmt.Fprintf(&b, "PROBLEMS: %s\n", strings.Join(m.problems, "; "))
 	}
 	return b.String()
+}
+
+// isCtorCode: the constructor, or a function called only from constructor code (helpers such
+// as initAtomics / attachMonitor that run before the object is published).
+func (m *Model) isCtorCode(f *ssa.Function) bool {
+	if f == nil || m.Ctor == nil {
+		return false
+	}
+	if v, ok := m.ctorCode[f]; ok {
+		return v
+	}
+	m.ctorCode[f] = false // cycle guard
+	res := f == m.Ctor
+	if !res {
+		t := topFunc(f)
+		if t != f {
+			res = m.isCtorCode(t)
+		} else if sites := m.callers[f]; len(sites) > 0 {
+			res = true
+			for _, cs := range sites {
+				if cs.IsGo || !m.isCtorCode(topFunc(cs.Caller)) {
+					res = false
+				}
+			}
+			// a function that is also reachable as a value (method value, interface) is not constructor-only
+			if n := m.P.CG.Nodes[f]; n != nil {
+				for _, e := range n.In {
+					if e.Site == nil || e.Site.Common().StaticCallee() != f {
+						res = false
+					}
+				}
+			}
+		}
+	}
+	m.ctorCode[f] = res
+	return res
 }
